@@ -18,7 +18,8 @@ MANIFEST = dict(
          'releases every pool ever created. Tied to the real library by a probe with counting operator new/delete (live blocks and '
          'bytes back to the baseline after each destroyed Lexicon, per-call block deltas and white-box node/pool counts equal to the '
          'model\'s), LeakSanitizer after every Lexicon, all under ASan+UBSan. PARTIAL: that std::forward_list/deque/vector/map free '
-         'what they own is trusted; "never touches dead storage" is observed by ASan on the generated histories, not proved.',
+         'what they own is trusted; "never touches dead storage" is observed by ASan on the generated histories, not proved; units '
+         'destroyed while their Lexicon lives on are exercised by a separate ASan scenario (harness/unitlife.cxx), outside the model.',
     note='Lean kernel; axioms propext/Classical.choice/Quot.sound; hand-written model tied by correspondence on generated histories '
          '(about 35 factory kinds, scopes/declarations, units/modules, printing); harness allocprobe.cxx, ASan/UBSan/LSan, g++.',
     technique='Lean 4 theorems (ownership invariant over all histories) + differential correspondence of allocation counts + sanitizers',
@@ -411,6 +412,9 @@ def run(tier):
     if not ok:
         res.proof_broken('IprProps.C19', detail)
 
+    # units destroyed while their Lexicon lives on (histories the model's probe does not generate): sanitizers only
+    ul_runs, ul_lines = unit_lifetimes(res, tier)
+
     # coverage
     kinds = {}
     for _, k, _ in programs:
@@ -452,6 +456,8 @@ def run(tier):
         'out-of-bounds abort the probe = violation), not proved',
         'nesting of owners is flattened in the model (a Namespace in a farm owns its Region, Scope, tables): the set of released '
         'blocks does not depend on the order',
+        'units destroyed while their Lexicon lives on are exercised by harness/unitlife.cxx under AddressSanitizer only: the ownership model '
+        '(IprModel/Own.lean) destroys units together with their Lexicon',
         'a std::hash collision between two generated words would change one block count (probability ~1e-13 per run)',
     ]
     return res.finish(info, rule='one process constructs and destroys 50 (quick) / 2000 (thorough) Lexicons; each history = random '
@@ -464,8 +470,44 @@ def run(tier):
                       'byte balance against the baseline, LeakSanitizer; a trace is one Lexicon')
 
 
+UL_ENV = {'ASAN_OPTIONS': 'detect_leaks=1:abort_on_error=0:allocator_may_return_null=1:detect_stack_use_after_return=1',
+          'LSAN_OPTIONS': 'print_suppressions=0'}
+
+
+def unit_lifetimes(res, tier):
+    """harness/unitlife.cxx: one Lexicon serves many units, each destroyed (at once, later, out of order) while the Lexicon is
+    asked for further guide names / decltypes / as-types / pointers over declarations of live and dead units."""
+    exe = C.build_harness('unitlife', 'asan', whitebox=False)
+    rounds = 12 if tier == 'quick' else 80
+    seeds = [C.seed() * 31 + k for k in range(4 if tier == 'quick' else 40)]
+    lines = 0
+    for sd in seeds:
+        rc, out, err = C.run_exe(exe, [str(sd), str(rounds)], '', env=UL_ENV)
+        lines += len(out.splitlines())
+        if rc != 0 or not out.rstrip().splitlines()[-1:] or not out.rstrip().splitlines()[-1].startswith('done'):
+            last = (out.rstrip().splitlines() or ['<nothing printed>'])[-1]
+            res.violation('unit-lifetime:' + sanitizer_kind(err),
+                          'harness/unitlife.cxx stopped (exit %d) after `%s`: a unit was destroyed while its Lexicon lived on and a '
+                          'later request on the Lexicon failed\n%s' % (rc, last, err[max(0, err.find('ERROR:')):][:3500]),
+                          'unitlife %d %d' % (sd, rounds), found_input=True)
+            break
+    res.cov['unit_lifetime_runs(one Lexicon, units destroyed while it lives)'] = len(seeds)
+    res.cov['unit_lifetime_rounds_per_run'] = rounds
+    return len(seeds), lines
+
+
 def replay(path):
     lines = [l.strip() for l in open(path)]
+    for l in lines:
+        if l.startswith('unitlife '):
+            exe = C.build_harness('unitlife', 'asan', whitebox=False)
+            rc, out, err = C.run_exe(exe, l.split()[1:], '', env=UL_ENV)
+            print(out[-1500:]); print(err[-3000:])
+            if rc != 0:
+                print('VIOLATION property=C19 replay=%s' % path)
+                return 1
+            print('replay: property holds on this input')
+            return 0
     ops = [l for l in lines if l and not l.startswith('#') and not l.startswith('correspondence:') and not l.startswith('theorem')]
     C.lean_build(['model_c19'])
     probe = C.build_harness('allocprobe', 'asan')
